@@ -1051,6 +1051,26 @@ def replay(ctx, data):
                 bad.append("non-finite values / length changed")
         except Exception as e:  # noqa
             bad.append("raised %r" % (e,))
+    elif fn == "svd_denoise_npx" and "collection_size" in inp:
+        from ibldsp import voltage
+        ncoll, size, m = inp["collections"], inp["collection_size"], inp["data_rank_per_collection"]
+        g = np.random.default_rng(0)
+        coll = np.arange(ncoll * size) % ncoll
+        d = np.zeros((ncoll * size, 40))
+        for col in range(ncoll):
+            ind = np.where(coll == col)[0]
+            d[ind, :] = g.standard_normal((ind.size, m)) @ g.standard_normal((m, 40))
+        out = voltage.svd_denoise_npx(d, rank=ncoll * m, collection=coll if ncoll > 1 else None)
+        err = float(np.max(np.abs(out - d)) / np.max(np.abs(d)))
+        print("implementation: %d collections of %d channels, data rank %d each, requested rank %d: rel err %g"
+              % (ncoll, size, m, ncoll * m, err))
+        obs = svd_groups_observe(list(coll) if ncoll > 1 else None, ncoll * m, nc=ncoll * size)
+        model = common.Extracted(PROP).run_many([[9, ncoll * size, ncoll * m] + [int(c) for c in coll]])[0]
+        print("ranks passed to _svd_denoise equal the model's exact floor:", obs == model)
+        if not err < 1e-9:
+            bad.append("input not returned although rank >= rank of the data")
+        if obs != model:
+            bad.append("model differs")
     elif fn.startswith("svd_denoise_npx(groups)"):
         obs = svd_groups_observe(inp["collection"], inp["rank"] or 0)
         model = common.Extracted(PROP).run_many([[9, len(inp["collection"]), inp["rank"] or 0] + inp["collection"]])[0]
